@@ -125,6 +125,8 @@ public:
       current_timestamp = 0;
     }
 
+    QUILL_VERIF_POINT(5, macro_metadata);
+
     if (QUILL_UNLIKELY(thread_context == nullptr))
     {
       // This caches the ThreadContext pointer to avoid repeatedly calling get_local_thread_context()
@@ -209,6 +211,7 @@ public:
 #endif
 
     thread_context->get_spsc_queue<frontend_options_t::queue_type>().finish_and_commit_write(total_size);
+    QUILL_VERIF_POINT(7, macro_metadata);
 
     if constexpr (immediate_flush)
     {
